@@ -195,6 +195,10 @@ def build(p):
                 raise ValueError(t)
         state["ex"] = ex
         top = ex
+        built = [None] + [t._d for t in taps[1:]] + [ex] if taps else [None]
+        for (idx, path, rname) in p.get("roles", []):
+            from .common import role_attr
+            role_attr(built[idx], path, rname)
 
         for i, sb in enumerate(subs, start=1):
             E.emit("Sub", f=i, xs=[CODES[o] for o in sb["script"]], a=sb.get("dur", 0))
@@ -266,4 +270,7 @@ def build(p):
         E.emit("End")
 
     opts = {"horizon": horizon + 400000, "max_steps": 60000}
+    if p.get("roles"):
+        rn = set(r[2] for r in p["roles"])
+        opts["visible"] = lambda obj: E.SCHED.roles.get(id(obj)) in rn
     return main, opts
